@@ -265,6 +265,11 @@ func init() {
 				case 1:
 					cfg := &SeqCfg{Prof: gen.Hostile().With(func(p *gen.Profile) { p.Keys = c01Keys }), MinOps: 0, MaxOps: 4, MissRate: 30, RootOK: true, ContinueAfterFail: true}
 					t = GenSeq(c.R, cfg, V5Opts{NegIdx: true}.Ref()).Patch()
+					if c.R.Intn(2) == 0 {
+						// the same patch with every string and member name (op, path, from and their values
+						// included) spelled with random escapes, members shuffled, whitespace between tokens
+						t = gen.Hostile().With(func(p *gen.Profile) { p.WS = 25 }).Respell(c.R, mustParse(t), true)
+					}
 				default:
 					t = prof.Root(c.R)
 				}
